@@ -22,6 +22,19 @@ def load_known():
     return d
 
 
+class StopCheck(Exception):
+    """Raised by Check.need after it has recorded a missing step: the rest of this property's rules cannot be evaluated,
+    the run ends with the violation already recorded."""
+
+
+def run_rules(mod, chk):
+    try:
+        mod.check(chk)
+    except StopCheck:
+        pass
+    return chk
+
+
 class Check:
     """One run of one property's rules."""
 
@@ -96,6 +109,12 @@ class Check:
         there by the caller before calling this."""
         self.ob(rule, "required step present: " + what, False, f.where(), detail=detail or "the step was not found on any path of " + f.qualname,
                 construct=f.ident, text="missing: " + what)
+
+    def need(self, cond, rule, what, f, detail=""):
+        """An essential step: when it is missing record the violation and stop evaluating this property."""
+        if not cond:
+            self.missing(rule, what, f, detail)
+            raise StopCheck()
 
     def expect(self, cond, msg):
         """Soft requirement (anchor / instance count): reported as an analysis
